@@ -76,6 +76,12 @@ impl Worker {
         self.last_phase = phase;
     }
 
+    /// Replace the worker by a fresh process (used by engines whose cases must be complete
+    /// process histories, e.g. call counters that live in statics).
+    pub fn retire(&mut self) {
+        self.respawn();
+    }
+
     fn stderr_tail(&self) -> String {
         let s = std::fs::read_to_string(&self.stderr_path).unwrap_or_default();
         let n = s.len();
